@@ -43,10 +43,30 @@ type Log struct {
 	// FailAt >= 0 makes the FailAt-th (0-based) Put/Destroy fail FailN times.
 	Frozen bool
 	Hook   func(c *Commit) error
+	// Preload is what the store holds before the state is built: Load hands every entry to the state. The
+	// entries become the first commits of the log the first time they are loaded, and only then: the stored
+	// resources exist once, whatever number of times the state asks for them.
+	Preload []resource.Resource
+	loaded  bool
 }
 
 // Load implements inmem.BackingStore.
-func (l *Log) Load(context.Context, inmem.LoadHandler) error { return nil }
+func (l *Log) Load(_ context.Context, h inmem.LoadHandler) error {
+	if len(l.Preload) == 0 {
+		return nil
+	}
+	vrt.TouchKey("hx.Log", true)
+	for _, r := range l.Preload {
+		if !l.loaded {
+			l.Entries = append(l.Entries, Commit{Idx: len(l.Entries), Type: r.Metadata().Type(), ID: r.Metadata().ID(), Res: r.DeepCopy(), G: vrt.CurID()})
+		}
+		if err := h(r.Metadata().Type(), r.DeepCopy()); err != nil {
+			return err
+		}
+	}
+	l.loaded = true
+	return nil
+}
 
 // Put implements inmem.BackingStore.
 func (l *Log) Put(_ context.Context, typ resource.Type, r resource.Resource) error {
